@@ -472,7 +472,12 @@ func TestOne(t *testing.T) {
 	}
 	fam := families[os.Getenv("VERIF_FAMILY")]
 	seed, _ := strconv.ParseUint(one, 10, 64)
-	runtime.GOMAXPROCS(1)
+	if b := os.Getenv("VERIF_BASE"); b != "" {
+		// VERIF_ONE is a run index under base seed VERIF_BASE, as in a determinism log
+		base, _ := strconv.ParseUint(b, 10, 64)
+		seed = runSeed(base, os.Getenv("VERIF_FAMILY"), seed)
+	}
+	runtime.GOMAXPROCS(envInt("VERIF_PROCS", 1))
 	g := rand.New(rand.NewPCG(seed, 0x5eed))
 	tier := os.Getenv("VERIF_TIER")
 	if tier == "" {
